@@ -11,7 +11,7 @@ PROP = dict(
         corpus_filter=r"^c07_",
         # len = per-mille of cases that go through the real RPC handlers (rpcrenew3 carries the clearing clauses)
         quick=dict(n=120000, len=60, shards=8, timeout=300),
-        thorough=dict(n=1600000, len=60, shards=32, timeout=1500),
+        thorough=dict(n=3000000, len=60, shards=32, timeout=1500),
         nontrivial=r"res=(accept|panic)", min_ops=1, min_kinds=1,
         rule="one evaluation = one generated (current, proposed, price/collateral) input case executed on the real validator and on the Lean model; distinct_nontrivial = distinct cases the implementation accepted or panicked on",
         trusted_base=COMMON_TB + [
